@@ -517,6 +517,7 @@ Finish(b, g, owner) ==
   /\ batch' = <<>> /\ cph' = "idle" /\ ci' = 0 /\ cown' = 0
 
 Cyc ==
+  /\ Enabled /\ Ready        \* without a reporter there is no collector
   /\ cph = "idle" /\ ncyc < MaxCycles
   /\ ncyc' = ncyc + 1
   /\ hist' = Append(hist, [ev |-> "cyc"])
@@ -526,6 +527,7 @@ Cyc ==
   /\ UNCHANGED <<tst, reg, ring, pend, cur, inop, stack, hs, spans, lsets, nid, nops, natt, nfl, pc, quiet>>
 
 Flush(t) ==
+  /\ Enabled /\ Ready
   /\ cph = "idle" /\ nfl < MaxFlush
   /\ nfl' = nfl + 1
   /\ hist' = Append(hist, Ev(t, "flush"))
